@@ -212,29 +212,4 @@ mod verif_c14 {
         std::mem::forget(b);
         std::mem::forget(c);
     }
-
-    // bounded: BTreeMap<u8, f64> with at most one entry (map<K, double> values)
-    fn any_map1() -> BTreeMap<u8, f64> {
-        let mut m = BTreeMap::new();
-        if kani::any() {
-            m.insert(kani::any(), kani::any());
-        }
-        m
-    }
-
-    #[kani::proof]
-    #[kani::unwind(6)]
-    fn btreemap_f64_pair_laws_len1() {
-        let a = any_map1();
-        let b = any_map1();
-        assert!(DoubleOps::eq(&a, &a));
-        assert!(DoubleOps::eq(&a, &b) == (DoubleOps::cmp(&a, &b) == Ordering::Equal));
-        assert!(DoubleOps::cmp(&a, &b) == DoubleOps::cmp(&b, &a).reverse());
-        if DoubleOps::eq(&a, &b) {
-            assert!(same(&stream(&a), &stream(&b)));
-        }
-        kani::cover!(a.len() == 1 && b.len() == 1);
-        std::mem::forget(a);
-        std::mem::forget(b);
-    }
 }
